@@ -85,5 +85,28 @@ c18.append(job("send-2threads",".","VH_NetlinkSendConcurrent",["C18/"],{"threads
 c18.append(job("send-3threads",".","VH_NetlinkSendConcurrent",["C18/"],{"threads":3},T,no_native=True,bounds="3 goroutines x 2 Sends"))
 C["C18"]={"jobs":c18,"assumptions":["syscall.Sendto/Recvfrom/Close are harness-side stubs (engine only); NetlinkClient is constructed directly, Socket/Bind are outside","sequence wrap at 2^32 stated as mod-2^32 increase","counterexamples are confirmed in the engine's concrete mode (the native build cannot be given stubbed syscall results)"],
   "outside":["the real sockets and the kernel's echo behaviour on NETLINK_ROUTE/NETLINK_USERSOCK (I/O)","NewNetlinkClient (Socket/Bind/Getsockname)"]}
+
+PARSE_ASSUME=["symbolic subject bytes are ASCII (< 0x80): the regexp summary is exact only there (enforced, not silently assumed)","regexp matching summarised per call by running the real regexp on one representative per byte-class vector",
+  "fmt formatting, net.IP.String and time.Time.String are engine summaries (a panic inside them would not be seen)"]
+TYPES=["SYSCALL","SECCOMP","SOCKADDR","PROCTITLE","USER_CMD","TTY","USER_TTY","EXECVE","PATH","USER_LOGIN","AVC","LOGIN","CRED_DISP","USER_START","USER_END","EOE","1999"]
+c05=[job("line-0-5","auparse","VH_LineTotal",["C05/"],{"maxlen":5},Q,bounds="ParseLogLine on every ASCII line of 0..5 symbolic bytes"),
+     job("line-0-7","auparse","VH_LineTotal",["C05/"],{"maxlen":7},T,bounds="ParseLogLine on every ASCII line of 0..7 symbolic bytes")]
+for i,t in enumerate(TYPES):
+    big = t in ("SYSCALL","EXECVE","USER_START","LOGIN")
+    c05.append(job(f"body-{t}","auparse","VH_BodyTotal",["C05/"],{"maxlen":6 if big else 5,"type":i},QO,bounds=f"Parse({t}, header + body) for every ASCII body of 0..{6 if big else 5} symbolic bytes, then Data/Tags/ToMapStr twice"))
+    c05.append(job(f"body7-{t}","auparse","VH_BodyTotal",["C05/"],{"maxlen":7 if t!="AVC" else 5,"type":i},T,bounds=f"Parse({t}, header + body), body 0..7 symbolic ASCII bytes (AVC: 0..5, its pattern has 14 byte classes)"))
+c05.append(job("bare-header","auparse","VH_BodyTotal",["C05/"],{"maxlen":4,"type":0,"bare":1},Q,bounds="Parse(SYSCALL, \"audit(1.000:1)\" + tail) for every ASCII tail of 0..4 symbolic bytes (no separator after the header)"))
+c05.append(job("body-anytype","auparse","VH_BodyTotal",["C05/"],{"maxlen":4,"type":-1},T,bounds="record type symbolic (16 bit), body 0..4 symbolic ASCII bytes"))
+KEYS=["saddr","argc","a0","a1","exit","arch","syscall","sig","subj","obj","key","success","res","auid","old-auid","ses","cwd","exe","proctitle","cmd","data","name","acct","msg"]
+KT={"saddr":2,"argc":7,"a0":7,"a1":7,"sig":1,"obj":8,"name":8,"res":9,"acct":9,"old-auid":11,"proctitle":3,"cmd":4,"data":5,"msg":13}
+KW={"syscall":1,"a0":2,"a1":2,"argc":3}
+for i,k in enumerate(KEYS):
+    ml = 3 if k=="syscall" else 4
+    c05.append(job(f"field-{k}","auparse","VH_FieldTotal",["C05/"],{"key":i,"maxlen":ml,"type":KT.get(k,0),"with":KW.get(k,0)},QO,
+        bounds=f"{TYPES[KT.get(k,0)]} record with {k}=<v>, v of 0..{ml} symbolic ASCII bytes, unquoted / double- / single-quoted"+(" plus the companion field" if k in KW else "")))
+    c05.append(job(f"field5-{k}","auparse","VH_FieldTotal",["C05/"],{"key":i,"maxlen":5 if k!="syscall" else 4,"type":KT.get(k,0),"with":KW.get(k,0)},T,bounds=f"{k}=<v>, v of 0..5 symbolic ASCII bytes (syscall: 0..4)"))
+for L in (0,1,2,3,4,5,8,15,16,17,47,48,49):
+    c05.append(job(f"saddr-len{L}","auparse","VH_SaddrTotal",["C05/"],{"len":L,"sym":8},Q if L in (3,4,15,16,48) else T,bounds=f"SOCKADDR saddr of {L} hex digits: family concrete (unix/ipv4/ipv6/netlink) or 4 symbolic digits, next 8 digits symbolic"))
+C["C05"]={"jobs":c05,"assumptions":PARSE_ASSUME,"outside":["inputs longer than the stated lengths","symbolic non-ASCII bytes"]}
 json.dump(C,open('/verif/checks.json','w'),indent=1)
 print({k:len(v["jobs"]) for k,v in C.items()})
